@@ -31,11 +31,14 @@ class FModLike (α : Type) where
   floor : α → α
   ceil  : α → α
 
-/-- Rust `f64::min` / `f64::max` (a NaN operand is ignored) and `f64::abs`. -/
+/-- Rust `f64::min` / `f64::max` (a NaN operand is ignored), `f64::abs`, `std::f64::MIN` and the
+saturating cast `f64 as i64`. -/
 class FMin (α : Type) where
   fmin : α → α → α
   fmax : α → α → α
   fabs : α → α
+  lowest : α
+  toI64 : α → Int
 
 export Transc (sin cos exp sqrt acos powf)
 export FModLike (fmod)
@@ -102,6 +105,9 @@ instance : FMin Float where
   fmin x y := if x.isNaN then y else if y.isNaN then x else if y < x then y else x
   fmax x y := if x.isNaN then y else if y.isNaN then x else if x < y then y else x
   fabs := Float.abs
+  lowest := Float.ofBits 0xFFEFFFFFFFFFFFFF
+  toI64 x := if x.isNaN then 0 else if x ≥ 9223372036854775808.0 then 9223372036854775807
+    else if x ≤ -9223372036854775808.0 then -9223372036854775808 else x.toInt64.toInt
 
 /-! ### `Rat` instances (exact evaluation; the transcendental functions are not available and
 are mapped to `0` — definitions evaluated at `Rat` never call them, which the proof files check
@@ -122,6 +128,8 @@ instance : FMin Rat where
   fmin x y := if y < x then y else x
   fmax x y := if x < y then y else x
   fabs x := if x < 0 then -x else x
+  lowest := -(2 ^ 1024 : Rat)
+  toI64 x := if x < 0 then -((-x).floor) else x.floor
 
 /-! ### generic helpers -/
 
